@@ -13,6 +13,10 @@ CLAIMS = {
          "Trusted: Coq kernel; Gen/Tables.v reflection printer; Tag::from_wire being the inverse of wire_value is checked by a sweep over 32-bit words (2^24 per quick run, all 2^32 in thorough), not proved; hand-written model tied by correspondence."),
  "C06": ("Theorems for every byte string of any length: from_bytes never reaches a panic site of the model; values of an accepted message are exactly the bytes after the header; to_string returns normally for every message with recursion bounded by MAX_DISPLAY_DEPTH. Tied by differential execution including display under catch_unwind in a 2 MiB-stack thread.",
          "Trusted: Coq kernel; the model's panic sites are those of message.rs (hand-mapped; a removed guard shows up as impl-panics-where-model-errs); a real stack overflow can only be observed (process crash is reported), not proved absent."),
+ "C01": ("Theorems on a model of the client binary (every unwrap / index / assert / expect a Panic value = non-zero exit): with a pinned key the client returns a time only if the response is authentic (signature chain from that key under the version's context strings, midpoint in the delegation window, Merkle proof binding its own request), then verified=Yes and the printed time is the signed midpoint; it never returns an error value (fail = panic); no key => never verified; a response authentic for two different requests exhibits a hash collision (no replay). Tied by running the real client binary (hex/base64 key, both protocols) against a scripted responder over the forgery catalogue; the extracted model predicts exit status / verified / time / index with Ed25519 answers from one-shot dalek, and the property is judged by an independent Python check (RFC 8032 transcription).",
+         "Trusted: Coq kernel; Ed25519 abstract; nonce freshness is ring SystemRandom (assumption); clap parsing, chrono formatting (output parsed back with -f '%s %f'), the 4096-byte receive buffer constant hand-modelled."),
+ "C03": ("Theorems: the client's request is 1024/1036 bytes and well-formed for the server it names; for every reply the server specification prescribes (any batch <= 64, any position, either protocol, pinned key or none) the client model accepts, reports verified iff a key was supplied and outputs exactly the signed midpoint in (seconds, nanoseconds), for every midpoint chrono represents. Since the server model provably emits those replies (C09), client and server are proved to fit. Tied by the real client binary against an independent Python reference responder (own keys, batch positions 0..63, depths 0..6, midpoints from the epoch to year 9999) and against the real server binary with -n 1/9/40.",
+         "Trusted: as C01; SigCorrect/PointOk hypotheses on Ed25519."),
  "C02": ("PARTIAL (fault *rate* measured, not proved). Theorems: with fault injection off the model of server.rs/responder.rs emits exactly the functionally specified replies (C09_drain), and every specified reply, for any batch of up to 2^32 requests and any position, is accepted by an independent verifier written from the protocol texts (literal context strings, 64-byte nodes over the nonce for classic, first-32-bytes nodes over the whole request for IETF), relative to SigCorrect; for every PRNG outcome a fault-injected reply is unchanged or rejected outright. Tied by in-process real Server vs extracted model on the same datagram rounds; every real reply goes through the extracted Coq verifier with signature queries answered by one-shot ed25519-dalek, and through a Python Merkle recomputation; failing share at p = 1/10/50 % measured over >= 2000 replies each.",
          "Trusted: Coq kernel; SigCorrect/PkLen/SigLen/HashLen hypotheses on the primitives; the PRNG (rate is a measurement); UDP loopback preserving send order; harness and Python glue."),
  "C07": ("Theorems for EVERY datagram: the classifier model accepts exactly the protocol spec's well-formed requests (1024..1500 bytes, protocol nonce length, exact IETF frame length, supported version among the first four, SRV absent or this server's) with the same nonce/protocol and never panics; rejected datagrams contribute nothing; with at most 64 requests per batch every reply is <= 1024 bytes <= its request. Tied by classification (impl / model / Coq spec) over length-, nonce-length-, frame-length-targeted and mutated datagrams and by the in-process server incl. full batches of maximum depth.",
